@@ -28,6 +28,8 @@ func init() {
 			{Name: "bang-returns-error", File: e, Old: "\tif v.Tok == token.NOT { // expr!\n\t\tcb.Val(pkg.Builtin().Ref(\"panic\")).Val(err).Call(1).EndStmt()", New: "\tif v.Tok == token.NOT && v.Default != nil { // expr!\n\t\tcb.Val(pkg.Builtin().Ref(\"panic\")).Val(err).Call(1).EndStmt()", Expect: "dispatch/compileErrWrapExpr"},
 			{Name: "question-panics", File: e, Old: "\t\tcb.Val(err).ReturnErr(true)", New: "\t\tcb.Val(pkg.Builtin().Ref(\"panic\")).Val(err).Call(1).EndStmt()", Expect: "dispatch/compileErrWrapExpr:?"},
 			{Name: "frame-text-of-default", File: e, Old: "\t\t\tVal(sprintAst(pkg.Fset, v.X)).", New: "\t\t\tVal(sprintAst(pkg.Fset, v)).", Expect: "frame/compileErrWrapExpr"},
+			{Name: "command-form-forces-bang", File: e, Old: "\t\t\tewExpr := *fn\n\t\t\tewExpr.X = &callExpr", New: "\t\t\tewExpr := ast.ErrWrapExpr{X: &callExpr, Tok: token.NOT, TokPos: fn.TokPos}", Expect: "synth-keeps-operator/literal:compileCallExpr"},
+			{Name: "default-read-as-binary", File: "parser/parser.go", Old: "\t\t\texpr.Default, _ = p.parseUnaryExpr(false, false, false)", New: "\t\t\texpr.Default, _ = p.parseBinaryExpr(false, token.UnaryPrec-1, false, false)", Expect: "default-binding/parser/printer"},
 			{Name: "default-also-wrapped", File: e, Old: "\tcb.If().Val(err).CompareNil(gotoken.NEQ).Then()\n\tif v.Default == nil {", New: "\tcb.If().Val(err).CompareNil(gotoken.NEQ).Then()\n\tif v.Default == nil || v.Tok == token.QUESTION {", Expect: "frame-guard/compileErrWrapExpr"},
 		},
 	})
@@ -195,6 +197,94 @@ func runC03(c *core.Check) {
 		okFrame := strings.Contains(txt, `Ref("NewFrame")`) && strings.Contains(txt, "Val(sprintAst(pkg.Fset,v.X))") && strings.Contains(txt, "Val(pos.Line)") && strings.Contains(txt, "pos:=pkg.Fset.Position(v.Pos())") && strings.Contains(txt, "Val(relFile(ctx.relBaseDir,pos.Filename))")
 		c.Decide(okFrame, "frame", "compileErrWrapExpr", frameIf.Pos(), "NewFrame(err, text of v.X, file, line of v.Pos(), function)", "the frame attached to the error no longer carries the text of the wrapped expression (v.X) and the file/line of the expression's own position")
 	}
+	// ---------- (4b) a synthesized error-wrap node keeps the operator and the default of the source node: cl may rebuild
+	// an ErrWrapExpr (command style `mkdir! "foo"` becomes `mkdir("foo")!`) but only as a copy of the original with X replaced
+	nLit := 0
+	for _, f := range pk.Syntax {
+		file := f
+		ast.Inspect(f, func(n ast.Node) bool {
+			cl, ok := n.(*ast.CompositeLit)
+			if !ok {
+				return true
+			}
+			nt := namedOf(info.TypeOf(cl))
+			if nt == nil || nt.Obj().Name() != "ErrWrapExpr" {
+				return true
+			}
+			nLit++
+			m := map[string]string{}
+			for _, el := range cl.Elts {
+				if kv, ok := el.(*ast.KeyValueExpr); ok {
+					m[core.ExprStr(kv.Key)] = core.ExprStr(kv.Value)
+				}
+			}
+			okTok := strings.HasSuffix(m["Tok"], ".Tok")
+			okDef := strings.HasSuffix(m["Default"], ".Default")
+			c.Decide(okTok && okDef, "synth-keeps-operator", "literal:"+enclosingFuncName(file, cl.Pos()), cl.Pos(), "Tok and Default are taken from the source node",
+				"cl builds an ast.ErrWrapExpr with Tok `"+m["Tok"]+"` and Default `"+m["Default"]+"` instead of copying them from the node it replaces: `f? args` is lowered as another operator (or loses its default)")
+			return true
+		})
+	}
+	// the copy site in compileCallExpr: `ewExpr := *fn; ewExpr.X = …` — only X may be overwritten
+	if cc := prog.FuncDecl("./cl", "compileCallExpr"); cc != nil {
+		copied, badField := false, ""
+		var ew types.Object
+		ast.Inspect(cc.Body, func(n ast.Node) bool {
+			as, ok := n.(*ast.AssignStmt)
+			if !ok || len(as.Lhs) != 1 || len(as.Rhs) != 1 {
+				return true
+			}
+			if st, ok := as.Rhs[0].(*ast.StarExpr); ok {
+				if nt := namedOf(info.TypeOf(as.Rhs[0])); nt != nil && nt.Obj().Name() == "ErrWrapExpr" {
+					_ = st
+					copied = true
+					ew = identObj(info, as.Lhs[0])
+				}
+			}
+			if sel, ok := as.Lhs[0].(*ast.SelectorExpr); ok && ew != nil && identObj(info, sel.X) == ew && sel.Sel.Name != "X" {
+				badField = sel.Sel.Name
+			}
+			return true
+		})
+		c.Decide((copied || nLit > 0) && badField == "", "synth-keeps-operator", "compileCallExpr", cc.Pos(), "the command-style rewrite copies the node and replaces only X", "the command-style rewrite of an error-wrap call no longer keeps the original node's fields (field "+badField+" is overwritten, or the node is not copied): the operator or the default of `f! args` / `f? args` changes")
+	}
+	// ---------- (4c) binding of the default: the parser reads the default of `?:` as a unary expression and the printer
+	// parenthesises it below unary precedence — the two siblings must agree, or `a?:1 * 10` changes meaning
+	{
+		xprog := c.Load("./parser", "./printer")
+		xp, pp := xprog.Pkg("./parser"), xprog.Pkg("./printer")
+		parsesUnary, printsUnary := false, false
+		if xp != nil {
+			if fd := core.FindFuncDecl(xp, "parser.parseErrWrapExpr"); fd != nil {
+				ast.Inspect(fd.Body, func(n ast.Node) bool {
+					as, ok := n.(*ast.AssignStmt)
+					if !ok || len(as.Rhs) != 1 || len(as.Lhs) == 0 || !strings.HasSuffix(core.ExprStr(as.Lhs[0]), ".Default") {
+						return true
+					}
+					if call, ok := as.Rhs[0].(*ast.CallExpr); ok {
+						if sel, ok := call.Fun.(*ast.SelectorExpr); ok && sel.Sel.Name == "parseUnaryExpr" {
+							parsesUnary = true
+						}
+					}
+					return true
+				})
+			}
+		}
+		if pp != nil {
+			if fd := core.FindFuncDecl(pp, "printer.expr1"); fd != nil {
+				ast.Inspect(fd.Body, func(n ast.Node) bool {
+					if call, ok := n.(*ast.CallExpr); ok && len(call.Args) >= 2 && strings.HasSuffix(core.ExprStr(call.Args[0]), ".Default") {
+						if k := constOf(pp.TypesInfo, call.Args[1]); k != nil && k.Name() == "UnaryPrec" {
+							printsUnary = true
+						}
+					}
+					return true
+				})
+			}
+		}
+		c.Decide(parsesUnary && printsUnary, "default-binding", "parser/printer", 0, "the default of `?:` is a unary expression for the parser and for the printer", "the parser and the printer no longer agree that the default of `expr?:d` is a unary expression (parser.parseErrWrapExpr must read it with parseUnaryExpr, printer.expr1 prints it at token.UnaryPrec): `atoi(s)?:1 * 10` is read as `atoi(s)?:(1*10)` or re-printed with another meaning")
+	}
+
 	// ---------- (5) expr? in global scope rejected first
 	{
 		first := -1
